@@ -38,6 +38,10 @@ def workload(name='main'):
     """List of (label, version, item builder(ctx)). ctx maps labels to identifiers."""
     if name == 'attributes':
         return workload_attributes()
+    if name == 'core':
+        keep = ('create', 'create_key_pair', 'register_secret', 'activate', 'modify_1x', 'delete_1x',
+                'revoke', 'destroy_deactivated')
+        return [e for e in workload('main') if e[0] in keep]
     c = W.common_attrs
     wl = [
         ('create', (1, 2), lambda x: W.p_create(W.sym_attrs(masks=MASKS, names=['k', 'k-alias'],
@@ -180,7 +184,7 @@ def run_workload(w, on_before=None, on_ack=None, name='main', on_item=None):
 
 
 # identifiers of the CreateKeyPair halves in each workload
-RSA_IDS = {'main': ('2', '3'), 'attributes': ('5', '6')}
+RSA_IDS = {'main': ('2', '3'), 'attributes': ('5', '6'), 'core': ('2', '3')}
 RSA_GENERATED = RSA_IDS['main']
 
 
@@ -440,7 +444,7 @@ def _one_workload(rep, tier, name, kinds, tot):
     finally:
         shutil.rmtree(tmp, ignore_errors=True)
     tot['stmt_points'] += len(pts)
-    if tier == 'thorough':
+    if tier == 'thorough' or name == 'core':
         if not crash.strace_available():
             rep.harness_error("strace is not available: syscall-level crash points cannot run")
             return
@@ -482,7 +486,9 @@ def run(tier, seed):
     rep = Reporter('C09', 'fault_enumeration', tier, seed)
     kinds = set()
     tot = {'distinct_states': 0, 'operations': 0, 'stmt_points': 0, 'sys_points': 0, 'counts': {}}
-    for name in WORKLOADS:
+    # quick: statement level for the two long workloads, statement + syscall level for the short
+    # 'core' workload; thorough: both levels for all three
+    for name in WORKLOADS + ['core']:
         _one_workload(rep, tier, name, kinds, tot)
     total = rep.counters.get('crash_points', 0)
     stmt_points, sys_points, distinct_states = tot['stmt_points'], tot['sys_points'], tot['distinct_states']
@@ -495,7 +501,12 @@ def run(tier, seed):
         evaluations=total, distinct_nontrivial=len(kinds) + distinct_states,
         rule="a case is one crash point (survivor files) checked against the reference states; "
              "distinct_nontrivial = number of distinct (event kind, statement verb) / (syscall) "
-             "classes of crash points plus the number of distinct reference states of the workloads",
+             "classes of crash points plus the number of distinct reference states of the workloads. "
+             "Workloads: 'main' (26 operations, every state-changing operation), 'attributes' (28: every "
+             "attribute-operation form, multi-commit batches, wrapped/derived/pair objects), 'core' (8). "
+             "Quick: statement level for all three, syscall level (kill at every pwrite64/fsync/"
+             "fdatasync/ftruncate/unlink of the server process) for 'core'; thorough: both levels for "
+             "all three",
         points_total=stmt_points + sys_points, points_covered=total,
         statement_level_points=stmt_points, syscall_level_points=sys_points,
         syscall_counts=counts, workload_operations=len(labels),
